@@ -8,6 +8,6 @@ cp driver.ml gen/
 cd gen
 ORDER=$(ocamlfind ocamldep -sort *.mli *.ml)
 # handlers register themselves at initialisation; main (the request loop) must be linked last
-ocamlfind ocamlopt -O2 -w -a $ORDER ../h_*.ml ../main.ml -o ../kpmodel 2>&1 | grep -v "options -O2 is only relevant" || true
+ocamlfind ocamlopt -O2 -w -a -I .. $ORDER ../h_*.ml ../main.ml -o ../kpmodel 2>&1 | grep -v "options -O2 is only relevant" || true
 cd ..
 test -x kpmodel
